@@ -2,9 +2,11 @@ SPECIFICATION Spec
 CONSTANTS
   Nodes = {1, 2, 3}
   Boot = 1
-  MaxLog = 4
+  MaxLog = 5
   SnapshotHasBook = TRUE
   BootHasAddr = TRUE
   ForgetClientOnRemove = TRUE
+  AddOverwrites = TRUE
+  ClientPerCall = TRUE
 INVARIANTS ViewOK NoDeadClient
 CHECK_DEADLOCK FALSE
